@@ -382,4 +382,70 @@ theorem range_missing_bounds_legacy_counterexample :
     opRange .stream [(0, ⟨.none, [], [], .int⟩)] 0 (some ⟨3#64, maxI64, false, true⟩) true = some false := by
   decide
 
+
+/-! ## 8. trace key range of the order-by tag -/
+
+/-- **`bounds_sound`**: the key range `[minVal, maxVal]` that `buildFilter` derives for the order-by tag contains the
+    key of every row satisfying the criteria, for every AND/OR tree (AND intersects, OR takes the hull). -/
+theorem bounds_sound (mt : Val → Val → Bool) (orderTag : Nat) (c : Criteria) (r : Row) (v : I64)
+    (he : eval mt c r = some true) (hv : r.get orderTag = some (.int v)) :
+    (keyBounds orderTag c).1 ≤ v.toInt ∧ v.toInt ≤ (keyBounds orderTag c).2 := by
+  have hlo : iMin ≤ v.toInt := min_le_toInt v
+  have hhi : v.toInt ≤ iMax := toInt_le_max v
+  induction c with
+  | leaf op tag lit =>
+    obtain ⟨w, hw, hle⟩ := evalWith_leaf_true he
+    simp only [keyBounds, leafBounds]
+    by_cases ht : tag = orderTag
+    · subst ht
+      rw [hv] at hw
+      cases hw
+      simp only [ne_eq, not_true_eq_false, if_false]
+      cases lit with
+      | int l =>
+        cases op <;> simp only
+        all_goals first
+          | exact ⟨hlo, hhi⟩
+          | skip
+        · -- lt
+          have := leafEval_int_range mt .lt l v _ rfl
+          rw [this] at hle
+          simp only [IntRange.mem, Bool.and_eq_true, if_true, Bool.false_eq_true, if_false] at hle
+          have h2 := (slt_iff _ _).mp hle.2
+          split <;> (try split) <;> constructor <;> (try simp only) <;> omega
+        · -- le
+          have := leafEval_int_range mt .le l v _ rfl
+          rw [this] at hle
+          simp only [IntRange.mem, Bool.and_eq_true, if_true] at hle
+          have h2 := (sle_iff _ _).mp hle.2
+          split <;> constructor <;> (try simp only) <;> omega
+        · -- gt
+          have := leafEval_int_range mt .gt l v _ rfl
+          rw [this] at hle
+          simp only [IntRange.mem, Bool.and_eq_true, if_true, Bool.false_eq_true, if_false] at hle
+          have h1 := (slt_iff _ _).mp hle.1
+          split <;> (try split) <;> constructor <;> (try simp only) <;> omega
+        · -- ge
+          have := leafEval_int_range mt .ge l v _ rfl
+          rw [this] at hle
+          simp only [IntRange.mem, Bool.and_eq_true, if_true] at hle
+          have h1 := (sle_iff _ _).mp hle.1
+          split <;> constructor <;> (try simp only) <;> omega
+      | _ => exact ⟨hlo, hhi⟩
+    · simp only [ne_eq, ht, not_false_eq_true, if_true]
+      exact ⟨hlo, hhi⟩
+  | and a b iha ihb =>
+    obtain ⟨ha, hb⟩ := evalWith_and_true he
+    have h1 := iha ha
+    have h2 := ihb hb
+    simp only [keyBounds]
+    omega
+  | or a b iha ihb =>
+    simp only [keyBounds]
+    rcases evalWith_or_true he with h | h
+    · have h1 := iha h; omega
+    · have h2 := ihb h; omega
+
+example : keyBounds 0 (.or (.leaf .le 0 (.int 50#64)) (.leaf .ge 0 (.int 500#64))) = (iMin, iMax) := by decide
+
 end Banyan.C08
